@@ -3,7 +3,7 @@ CONSTANTS
   ItemKinds = {"local", "call", "pcall", "do", "func", "afunc"}
   MaxTop = 2
   MaxDev = 2
-  DevTypes = {"semi", "tail", "range"}
+  DevTypes = {"semi", "dir", "tail", "range"}
   WithReturn = FALSE
 INVARIANT Emit
 CHECK_DEADLOCK FALSE
